@@ -15,12 +15,17 @@ PID = 'C02'
 SHARD_SIZE = 150
 INF = float('inf')
 
-RULE = ('random space trees: leaves = tensor spaces (1-3 axes, sizes 0..6 and the regimes 99/100/101/50001, '
-        'float64/float32, C- and F-ordered data) or uniform discretizations (1-3 axes, 1..5 points per axis, '
-        'every nodes_on_bdry choice per axis side, also partitions with arbitrary boundary fractions), each with '
-        'weighting none/constant/array and exponent 1/2/inf/3/4; inner nodes = product spaces (arity 0..3, depth '
-        '<= 3, weighting none/constant/array, exponent 1/2/inf/3, power spaces); operations inner/norm/dist on '
-        'small-integer data; complex leaves as (re, im); 1-d partitions for all n x boundary flags.  A case is '
+RULE = ('random space trees: leaves = tensor spaces (0-3 axes incl. shape (), sizes 0..6 and the regimes '
+        '99/100/101/4999/50000/50001/60000 from a closed form known to both sides, float64/float32/int64 (non-BLAS '
+        'branch), C- and F-ordered data, array weights also with negative entries for p in {2, inf}) or uniform '
+        'discretizations (1-3 axes, 1..7 points per axis, every nodes_on_bdry choice per axis side, also explicit '
+        'partitions with boundary fractions 0.5..2), each with weighting none/constant/array and exponent '
+        '1/2/inf/3/4; inner nodes = product spaces (arity 0..3, depth <= 3, weighting none/constant/array, exponent '
+        '1/2/inf/3, power spaces, one dtype per tree); operations inner/norm/dist on small-integer data incl. all-zero, '
+        'all-one and Pythagorean vectors; complex leaves as (re, im); 1-d partitions for n = 1..257 x all boundary '
+        'flags; N-d cell volume / extent / boundary weight array against apply_on_boundary.  Excluded (probed as '
+        'findings instead): 0-d dist, mixed dtypes in one tree, int x array weighting x finite p != 2, inputs where '
+        'float rounding flips the exact test cell_volume == 1.0 or sits on the isclose band edge.  A case is '
         'non-trivial when the data are not identically zero; distinct by (space description, op, data).')
 ASSUMPTIONS = [
     'exact real arithmetic: rounding of float sums, BLAS nrm2/dot accuracy and float32 accumulation are outside '
